@@ -791,3 +791,9 @@ func (d *Drv) BuildUnsafe(f *FSpec) ecs.UnsafeFilter                 { return d.
 func (d *Drv) Rels(rs []RelT, order []int, style int) []ecs.Relation { return d.rels(rs, order, style) }
 func (d *Drv) FilterOrder(f *FSpec) []int                            { return d.filterOrder(f) }
 func (d *Drv) Handle(e EID) ecs.Entity                               { return d.h(e) }
+
+// Completes exports completes (see there).
+func Completes(fn func()) bool { return completes(fn) }
+
+// ManyPlain exports the family of 254 plain component types (distinct from the universe types).
+func ManyPlain() []ecs.Comp { return manyPlain }
